@@ -192,6 +192,12 @@ class TFLiteSubgraph:
                 # Attach the actual nng subgraphs to the op
                 init_subgraph_index = op.attrs["init_subgraph_index"]
                 op.attrs["subgraph"] = (self.graph.nng.subgraphs[init_subgraph_index],)
+            if op_type == Op.Call:
+                # Attach the actual nng subgraph to the op. The option itself is called "subgraph", so the index is
+                # kept under another name for the writer
+                call_subgraph_index = op.attrs["subgraph"]
+                op.attrs["call_subgraph_index"] = call_subgraph_index
+                op.attrs["subgraph"] = (self.graph.nng.subgraphs[call_subgraph_index],)
 
             if op_type == Op.Reshape:
                 if "new_shape" in op.attrs["attribute_read_error"] and len(inputs) > 1:
